@@ -191,7 +191,10 @@ Inductive tdata :=
 | TArg (number : N) (part : option N) (fs : N)   (* Argument; fs = function space (not inspected) *)
 | TCoef (count : N) (fs : N)                     (* Coefficient; fs not inspected *)
 | TLabel (count : N)                             (* Label *)
-| TRepr (ps : list piece).                       (* every other terminal: pieces of its repr *)
+| TRepr (ps : list piece)                        (* every other terminal: pieces of its repr *)
+| TGeo (key : string) (mesh : N).                (* geometric quantity under the repaired comparator
+                                                    (fixes/C12-geometry-cmp-by-domain-id.diff): repr of the
+                                                    coordinate element, then the mesh id as a NUMBER *)
 
 Definition dec (n : N) : string := NilZero.string_of_uint (N.to_uint n).
 Definition render_piece (p : piece) : string := match p with PLit s => s | PCnt _ n => dec n end.
@@ -216,7 +219,7 @@ Definition cmp_opt (p q : option N) : comparison :=
   end.
 
 Definition kind (d : tdata) : N :=
-  match d with TMulti _ => 0 | TArg _ _ _ => 1 | TCoef _ _ => 2 | TLabel _ => 3 | TRepr _ => 4 end.
+  match d with TMulti _ => 0 | TArg _ _ _ => 1 | TCoef _ _ => 2 | TLabel _ => 3 | TRepr _ => 4 | TGeo _ _ => 5 end.
 
 (** [strict = false]: the code as it is.  [strict = true]: the repaired [_cmp_multi_index] that also
     compares the lengths after the zip loop (fixes/C29-multiindex-length.diff). *)
@@ -227,6 +230,7 @@ Definition cmp_tdata (strict : bool) (d e : tdata) : comparison :=
   | TCoef x _, TCoef y _ => x ?= y
   | TLabel _, TLabel _ => Eq
   | TRepr ps, TRepr qs => cmp_str (render ps) (render qs)
+  | TGeo k1 m1, TGeo k2 m2 => then_ (cmp_str k1 k2) (m1 ?= m2)
   | _, _ => kind d ?= kind e
   end.
 
@@ -274,6 +278,7 @@ Proof.
   - rewrite then_opp, <- N.compare_antisym, <- cmp_opt_opp. reflexivity.
   - apply N.compare_antisym.
   - apply cmp_str_opp.
+  - rewrite then_opp, <- N.compare_antisym, <- cmp_str_opp. reflexivity.
 Qed.
 
 Theorem C29_cmp_antisym : forall s a b, cmpg s b a = CompOpp (cmpg s a b).
@@ -311,6 +316,7 @@ Proof.
   destruct d, e, f; simpl;
     try reflexivity; try apply ncmp_t3; try apply cmp_str_t3;
     try (apply t3_then; [apply ncmp_t3 | intros _ _; apply cmp_opt_t3]);
+    try (apply t3_then; [apply cmp_str_t3 | intros _ _; apply ncmp_t3]);
     try (match goal with |- t3 ?x ?y ?z = true =>
            (destruct x; reflexivity) || (destruct y; reflexivity) end);
     try (match goal with |- match ?x with _ => _ end = true => destruct x; reflexivity end).
@@ -443,6 +449,7 @@ Definition erase_tdata (d : tdata) : tdata :=
   | TCoef c _ => TCoef c 0
   | TLabel _ => TLabel 0
   | TRepr ps => TRepr [PLit (render ps)]
+  | TGeo k m => TGeo k m
   end.
 Fixpoint erase (a : tree) : tree :=
   match a with
@@ -488,6 +495,7 @@ Proof.
   - rewrite then_eq_Eq, N.compare_eq_iff, cmp_opt_eq. split; [intros [-> ->]; reflexivity | intro H; injection H; auto].
   - rewrite N.compare_eq_iff. split; congruence.
   - rewrite cmp_str_eq. split; [intros ->; reflexivity | intro H; injection H; auto].
+  - rewrite then_eq_Eq, cmp_str_eq, N.compare_eq_iff. split; [intros [-> ->]; reflexivity | intro H; injection H; auto].
 Qed.
 
 Lemma rzip_eq_map {A B} (c : A -> A -> comparison) (f : A -> B) l1 :
